@@ -27,6 +27,9 @@ CONFIGS = {
           "HF_XET_NRANGES_IN_STREAMING_FRAGMENTATION_ESTIMATOR": "2", "HF_XET_INGESTION_BLOCK_SIZE": "1500"},
     # limits of the design model MC_Upload / Gen_Upload (MaxC = 2 chunks)
     "G": dict(BASE, HF_XET_MAX_XORB_CHUNKS="2", HF_XET_MAX_XORB_BYTES="100000", HF_XET_NRANGES_IN_STREAMING_FRAGMENTATION_ESTIMATOR="2"),
+    # tiny shards: the session shard is flushed at almost every registration (concurrent-cleaning storms)
+    "S": dict(BASE, HF_XET_MAX_XORB_CHUNKS="3", HF_XET_MAX_XORB_BYTES="100000", HF_XET_MDB_SHARD_MIN_TARGET_SIZE="300",
+              HF_XET_NRANGES_IN_STREAMING_FRAGMENTATION_ESTIMATOR="128"),
     "E": {"HF_XET_TARGET_CHUNK_SIZE": "256", "HF_XET_MAX_XORB_CHUNKS": "3", "HF_XET_MAX_XORB_BYTES": "4096",
           "HF_XET_NRANGES_IN_STREAMING_FRAGMENTATION_ESTIMATOR": "128"},
 }
@@ -52,7 +55,9 @@ def run_all(ctx, props, faults=1):
             # sizes exactly at and one past the chunk-count limit, remainders adding up to the limit / one more
             ("A", "limits", 1, {}), ("G", "limits", 1, {}), ("C", "limits", 1, {}),
             # every single store call failing in turn (nothing stored / stored then failed / failing at finalize)
-            ("A", "sweep", 1, {"nputs": 8}), ("G", "sweep", 1, {"nputs": 10})]
+            ("A", "sweep", 1, {"nputs": 8}), ("G", "sweep", 1, {"nputs": 10}),
+            # 10-16 files cleaned concurrently with session-shard flushes in between, then re-uploaded
+            ("S", "cstorm", 6 * k, {"blocks": 200})]
     counts = {}
     # design model of the pipeline (exhaustive for 2 files x 3 chunks, one injected failure) + negative control
     ctx.model("MC_Upload", "MC_Upload.cfg", workers=12,
